@@ -2,19 +2,28 @@ WRAPS = ['psGetEntropy', 'psGetTime', 'psDiffMsecs', 'psCompareTime', 'time',
          'malloc', 'calloc', 'realloc', 'free', 'psVerifySig', 'psVerify', 'matrixValidateCertsExt']
 SRC = ['props/C19/alloc_fault.cc', 'harness/wraps.c', 'harness/c19_alloc_wraps.c']
 PROP = dict(
-    level='exhaustive-bounded',
-    level_text='Exhaustive single-fault injection: for each of the scenarios (key/CA/PSK/ticket-key loading, session creation with every option block, '
-               'full / resumed / client-auth handshakes for TLS 1.1/1.2/1.3 and DTLS 1.2, 40 kB data exchange, closure, deletes in different orders; each with good and bad credentials) '
-               'the fault-free run counts the N allocations made inside MatrixSSL API calls and the thorough tier fails every k-th one (k = 1..N), '
-               'plus "keep failing from k on" for every k and 800 random multi-fault patterns per scenario. Exhaustive only within these scenarios and single faults; '
-               'multi-fault combinations are sampled.',
-    level_note='Trusted: ld --wrap interposition of malloc/calloc/realloc/free reaches every MatrixSSL allocation (psMalloc is a macro over libc in this configuration; checked: every armed call site symbolises into core/, crypto/ or matrixssl/); '
-               'entropy and clock are pinned so run k replays run 0 up to the k-th allocation (checked: the failed call site must equal run 0\'s site k). '
-               'Each case runs in a forked child; the leak oracle is the harness ledger of armed-window allocations after deleting all sessions, keys and matrixSslClose(), relative to the fault-free run.',
-    technique='exhaustive fault injection (allocation failure) with crash / leak / authentication-fact oracles, forked per case',
-    rule='case = (scenario, mode in {single k, sticky from k, random pattern p}, k); non-trivial = every case in which at least one allocation was failed; '
-         'distinct by (scenario, mode, k, call-site of the first failed allocation). quick tier: every k for call sites outside crypto/math, every 5th k (offset by seed) inside crypto/math, every 8th sticky k, 24 random patterns per scenario.',
-    assumptions=['single-threaded use', 'allocator failures only (no partial writes / signals)'],
+    level='exploration',
+    level_text='Bounded-exhaustive single-fault injection inside 51 fixed scenarios (key / CA / PSK / ticket-key loading from files and memory incl. '
+               'unusable material; client and server session creation with SNI + custom hello extensions, session id, expectedName, version and group options; '
+               'full / session-id-resumed / ticket-resumed / client-auth / HelloRetryRequest handshakes for TLS 1.1, 1.2, 1.3 and DTLS 1.2 with RSA, ECDSA, PSK, x25519; '
+               '40 kB data exchange both ways, closure, deletes in different orders; good credentials and untrusted CA / wrong name / wrong PSK / untrusted client '
+               'certificate / corrupted certificate signature). The fault-free run counts the N allocations made inside MatrixSSL API calls; the thorough tier fails, '
+               'one per forked run, every k-th allocation outside the bignum/EC-temporary class and up to ~2500 of that class per scenario (first 6 occurrences of '
+               'every calling context, then strided), plus "keep failing from k on" and 300 random multi-fault patterns per scenario. '
+               'Exhaustive only for single faults outside the bulk class within these scenarios; everything else is sampled (C19_FULL=1 removes the sampling: hours).',
+    level_note='Trusted: ld --wrap interposition of malloc/calloc/realloc/free reaches every MatrixSSL allocation (psMalloc is a macro over libc in this configuration; '
+               'checked: every armed call site symbolises into core/, crypto/ or matrixssl/); entropy and clock are pinned so run k replays run 0 up to the k-th allocation '
+               '(checked: the failed call site must equal run 0\'s site k, else c19:harness-nondeterminism). Each case runs in a forked child (a crash ends one case, not the sweep). '
+               'Leak oracle = harness ledger of allocations made inside API calls that are still live after deleting sessions, session ids, all key sets and matrixSslClose(), '
+               'per call site relative to the fault-free run (which has known fault-free leaks in TLS 1.3). "Verification not skipped" = bad-credential handshakes never complete, '
+               'and a completing good handshake shows at least the fault-free counts of successful psVerifySig/psVerify/matrixValidateCertsExt/certificate-callback events. '
+               'A failure that the faulted endpoint swallows but the peer turns into an alert counts as "connection ends with an alert" (literal reading of the property).',
+    technique='systematic fault injection (allocation failure) with crash / leak / usability / authentication-fact oracles; one forked process per case; enumeration, not random generation',
+    rule='case = (scenario, mode in {single k, sticky from k, random pattern p}, k); case number = k*257 + scenario*3 + mode (tape = 8-byte big-endian case number). '
+         'non-trivial = at least one allocation was failed; distinct by (scenario, mode, k, call site of the first failed allocation). '
+         'quick tier: load/session scenarios every non-bulk k; handshake scenarios the first 2 occurrences of every calling context (call site x stack depth) and every 8th later one; '
+         'bulk class (crypto/math, ecc_math.c) first occurrence of every second context + ~40 strided k per scenario; sticky every 3rd of those; 8 random patterns per scenario; strides offset by the seed.',
+    assumptions=['single-threaded use', 'only the allocator fails (no I/O errors, no signals)', 'USE_MATRIX_MEMORY_MANAGEMENT off: psMalloc == malloc'],
     targets=[dict(name='c19_alloc_quick', src=SRC, wraps=WRAPS, env={'VERIF_DIR': '/verif'}, enumerate=True, args=['--c19-quick'],
                   quick=dict(cases=0, secs=100, grace=120)),
              dict(name='c19_alloc', src=SRC, wraps=WRAPS, env={'VERIF_DIR': '/verif'}, enumerate=True,
